@@ -57,6 +57,10 @@ class ModTarget:
             if idxs:
                 c.append(z3.And(idxs[0] >= self.lo, idxs[0] < self.hi))
             return z3.And(c)
+        if self.kind == 'region':
+            if key[0] != self.fam or key[1] != self.tk:
+                return None
+            return z3.BoolVal(True)
         if self.kind == 'map':
             if key[0] != 'map' or key[1] != self.tk:
                 return None
@@ -536,6 +540,7 @@ class Instrs(CallsMixin):
         (kh, has), (kl, ln), vals, d = self.map_regions(st, x)
         kt = V.key_term(types, Val(d['key'], kv.lv), st)
         present = z3.And(x.term != 0, z3.Select(z3.Select(has, x.term), kt))
+        st.assume(z3.Implies(present, z3.Select(ln, x.term) >= 1))
         lv = {}
         for (p, s, role, kvk, reg) in vals:
             t = z3.Select(z3.Select(reg, x.term), kt)
@@ -660,6 +665,10 @@ class Instrs(CallsMixin):
     def mod_target(self, ev, e):
         types = self.types
         st = ev.st
+        if e[0] == 'call' and e[1] == ('id', 'elems') and len(e[2]) == 1:
+            # elems(T): every backing array with elements of type T
+            t = ev.ev(e[2][0])
+            return ModTarget('region', fam='elems', tk=st.elems_tk(t.t))
         if e[0] == 'slice':
             x = ev.deref_auto(ev.ev(e[1]))
             if types.kind(x.t) != 'slice':
@@ -714,6 +723,10 @@ class Instrs(CallsMixin):
                     old = Val(aloc.t, lv)
                 else:
                     st.heap.set(key, z3.Store(reg, sl.lv[('b',)], new))
+        elif t.kind == 'region':
+            from .calls import fresh_evid
+            ev = Event(fresh_evid(), lambda key, t=t: key[0] == t.fam and key[1] == t.tk, st.frontier, None, why)
+            st.heap.havoc(ev, st.alloc0)
         elif t.kind == 'map':
             for key in list(st.heap.r.keys()):
                 pass
